@@ -393,6 +393,13 @@ Proof.
   split; auto. apply Forall_rev. auto.
 Qed.
 
+Lemma inside_last_safe : forall base sp, inside base sp -> safe_comp (last_comp sp).
+Proof.
+  intros base sp [rest [N [E F]]]. subst sp. unfold last_comp.
+  destruct (exists_last N) as [r' [c E]]. subst rest. rewrite app_assoc, last_last.
+  apply Forall_app in F. destruct F as [_ F]. inversion F. auto.
+Qed.
+
 (* the staging files of the streams that are open *)
 Definition streams_inside (cfg : fscfg) (st : fstate) : Prop :=
   forall sid sp, nth_error (fs_str st) sid = Some (Some sp) -> inside (f_base cfg) sp.
@@ -524,7 +531,7 @@ Proof.
     match type of HS with context [w_run ?fu ?env ?f ?pc ?l] => destruct (w_run fu env f pc l) as [[f1 r] lg] eqn:R end.
     inversion HS; subst. simpl.
     match type of R with w_run _ ?env _ _ _ = _ =>
-      assert (EI : env_inside env) by (split; simpl; auto; intros; apply stage_name_safe);
+      assert (EI : env_inside env) by (split; simpl; auto; intros; apply (inside_last_safe _ _ I));
       assert (HW' : base_wf (we_base env)) by exact HW;
       assert (HF' : prefixes_dirs (fs_fs st) (we_base env)) by exact HF;
       assert (HP' : pc_inside env (WClose sp None)) by exact I;
